@@ -68,7 +68,8 @@ def case(draw, tier):
         c["form"] = draw(st.sampled_from(["ordereddict", "dict", "list", "setitem", "setitem-late"]))
     c["via_config"] = draw(st.integers(0, 3)) == 0
     if len(tbl) > 1 and op not in ("rowgroupmap_deep",):
-        c["blowup"] = scale.derive(c, odds=40, sizes=[130, 300, 600, 1030], wide=False)
+        # (10001 rows: a single group can then pass 10000 rows)
+        c["blowup"] = scale.derive(c, odds=40, sizes=[130, 300, 600, 1030, 10001, 10001] if op in ("agg_multi", "agg_none", "mergeduplicates", "agg_list", "agg_len") else [130, 300, 600, 1030], wide=False)
         c["big_buffersize"] = draw(st.sampled_from([None, 1000, 7, "n/300", "n/130", "n/2"]))
     if op == "agg_none":
         c["spec"] = draw(st.sampled_from(["len", "list", "multi"]))
